@@ -1303,7 +1303,7 @@ class BatchComp(FrozenComp):
             return SNS(applied=0, clamps=0, version_etag="e", snapshot_path=None, metrics={})
 
         ctx = SNS(turn_id=case["turn"], slice_idx=case["slice"], agent_id="x", now_ms=None,
-                  cfg={"perf": {"parallel": {"enabled": True, "agents": True, "max_workers": 8}}})
+                  cfg={"perf": {"enabled": True, "parallel": {"enabled": True, "agents": True, "max_workers": 8}}})
         state = {"agents": {b["agent"]: {"graphs": [b["agent"]]} for b in case["bufs"]}}
         try:
             ocore.Orchestrator = StageEmitter
